@@ -81,7 +81,7 @@ fn run_with_fault(dir: &Path, plan: &Plan, nth: i64, errno: i32) -> (Option<Stri
     let mut verdict: Option<Verdict> = None;
     let mut site: Option<String> = None;
     let mut faulted_op_kind = String::new();
-    let mut v = |verdict: &mut Option<Verdict>, sig: &str, desc: String| {
+    let v = |verdict: &mut Option<Verdict>, sig: &str, desc: String| {
         if verdict.is_none() {
             *verdict = Some(Verdict { sig: sig.to_string(), desc });
         }
